@@ -422,6 +422,10 @@ func (c *RPCClient) GetCoordinate(node string) (*coordinate.Coordinate, error) {
 
 type monitorHandler struct {
 	client *RPCClient
+	// lock guards init and closed, and makes sends on logCh mutually
+	// exclusive with Cleanup closing it. Stop and Close run Cleanup on the
+	// caller's goroutine while the listener may still be inside Handle.
+	lock   sync.Mutex
 	closed bool
 	init   bool
 	initCh chan<- error
@@ -431,17 +435,27 @@ type monitorHandler struct {
 
 func (mh *monitorHandler) Handle(resp *responseHeader) {
 	// Initialize on the first response
+	mh.lock.Lock()
 	if !mh.init {
 		mh.init = true
 		mh.initCh <- strToError(resp.Error)
+		mh.lock.Unlock()
 		return
 	}
+	mh.lock.Unlock()
 
 	// Decode logs for all other responses
 	var rec logRecord
 	if err := mh.client.dec.Decode(&rec); err != nil {
 		log.Printf("[ERR] Failed to decode log: %v", err)
 		mh.client.deregisterHandler(mh.seq)
+		return
+	}
+
+	// The handler may have been stopped while the record was being decoded
+	mh.lock.Lock()
+	defer mh.lock.Unlock()
+	if mh.closed {
 		return
 	}
 	select {
@@ -452,6 +466,8 @@ func (mh *monitorHandler) Handle(resp *responseHeader) {
 }
 
 func (mh *monitorHandler) Cleanup() {
+	mh.lock.Lock()
+	defer mh.lock.Unlock()
 	if !mh.closed {
 		if !mh.init {
 			mh.init = true
@@ -504,6 +520,7 @@ func (c *RPCClient) Monitor(level logutils.LogLevel, ch chan<- string) (StreamHa
 
 type streamHandler struct {
 	client  *RPCClient
+	lock    sync.Mutex // see monitorHandler.lock
 	closed  bool
 	init    bool
 	initCh  chan<- error
@@ -513,17 +530,27 @@ type streamHandler struct {
 
 func (sh *streamHandler) Handle(resp *responseHeader) {
 	// Initialize on the first response
+	sh.lock.Lock()
 	if !sh.init {
 		sh.init = true
 		sh.initCh <- strToError(resp.Error)
+		sh.lock.Unlock()
 		return
 	}
+	sh.lock.Unlock()
 
 	// Decode logs for all other responses
 	var rec map[string]any
 	if err := sh.client.dec.Decode(&rec); err != nil {
 		log.Printf("[ERR] Failed to decode stream record: %v", err)
 		sh.client.deregisterHandler(sh.seq)
+		return
+	}
+
+	// The handler may have been stopped while the record was being decoded
+	sh.lock.Lock()
+	defer sh.lock.Unlock()
+	if sh.closed {
 		return
 	}
 	select {
@@ -534,6 +561,8 @@ func (sh *streamHandler) Handle(resp *responseHeader) {
 }
 
 func (sh *streamHandler) Cleanup() {
+	sh.lock.Lock()
+	defer sh.lock.Unlock()
 	if !sh.closed {
 		if !sh.init {
 			sh.init = true
@@ -586,6 +615,7 @@ func (c *RPCClient) Stream(filter string, ch chan<- map[string]any) (StreamHandl
 
 type queryHandler struct {
 	client *RPCClient
+	lock   sync.Mutex // see monitorHandler.lock
 	closed bool
 	init   bool
 	initCh chan<- error
@@ -596,11 +626,14 @@ type queryHandler struct {
 
 func (qh *queryHandler) Handle(resp *responseHeader) {
 	// Initialize on the first response
+	qh.lock.Lock()
 	if !qh.init {
 		qh.init = true
 		qh.initCh <- strToError(resp.Error)
+		qh.lock.Unlock()
 		return
 	}
+	qh.lock.Unlock()
 
 	// Decode the query response
 	var rec queryRecord
@@ -612,18 +645,27 @@ func (qh *queryHandler) Handle(resp *responseHeader) {
 
 	switch rec.Type {
 	case queryRecordAck:
-		select {
-		case qh.ackCh <- rec.From:
-		default:
-			log.Printf("[ERR] Dropping query ack, channel full")
+		// The client may have been closed while the record was being decoded
+		qh.lock.Lock()
+		if !qh.closed {
+			select {
+			case qh.ackCh <- rec.From:
+			default:
+				log.Printf("[ERR] Dropping query ack, channel full")
+			}
 		}
+		qh.lock.Unlock()
 
 	case queryRecordResponse:
-		select {
-		case qh.respCh <- NodeResponse{rec.From, rec.Payload}:
-		default:
-			log.Printf("[ERR] Dropping query response, channel full")
+		qh.lock.Lock()
+		if !qh.closed {
+			select {
+			case qh.respCh <- NodeResponse{rec.From, rec.Payload}:
+			default:
+				log.Printf("[ERR] Dropping query response, channel full")
+			}
 		}
+		qh.lock.Unlock()
 
 	case queryRecordDone:
 		// No further records coming
@@ -635,6 +677,8 @@ func (qh *queryHandler) Handle(resp *responseHeader) {
 }
 
 func (qh *queryHandler) Cleanup() {
+	qh.lock.Lock()
+	defer qh.lock.Unlock()
 	if !qh.closed {
 		if !qh.init {
 			qh.init = true
